@@ -298,6 +298,8 @@ def c10(ctx):
     RT.rule_args_private(ctx)
     RT.rule_observers(ctx)
     RT.rule_state_owner(ctx, methods=("save", "load", "__init__", "attach_existing_shm"))      # C10 is about save/load
+    RH.rule_cachekey(ctx)          # "every query equals the original's": an answer depends on the persistent state only, not on what the
+                                   # original happened to be asked before it was saved
     RA.rule_ceil(ctx)
     ctx.floor("persist-table", 30)
     ctx.floor("ctor-args", 20)
@@ -340,6 +342,7 @@ def c16(ctx):
     RT.rule_layout(ctx)
     RT.rule_owner(ctx)
     RT.rule_argsdict(ctx)
+    RH.rule_cachekey(ctx)          # "all views observe one state": a handle's cached answer is keyed on the shared counters, not on a flag of its own
     RT.rule_factory(ctx)
     RT.rule_attach_table(ctx)
     RT.rule_state_owner(ctx)
